@@ -283,7 +283,7 @@ class Interp:
 
     def ev_Attribute(self, e, st):
         v = self.ev(e.value, st)
-        if hasattr(v, "pyvc_getattr"):
+        if getattr(type(v), "pyvc_getattr", None) is not None:
             return v.pyvc_getattr(e.attr, self, st)
         try:
             return getattr(v, e.attr)
